@@ -40,14 +40,16 @@ NCfg == 12
 \* user generator instances that may be shared: 1 = MaxStepGenerator(base_step=1, num_steps=12)
 \* (ratio left to its n-dependent default), 2 = MinStepGenerator(base_step=2^-10, step_ratio=2, num_steps=10)
 \* generator 0 = the object's own default generator
-SharedGens == {1, 2, 3}     \* 3 = MaxStepGenerator(base_step=1, step_ratio=1.64, num_steps=12): a ratio close to the default 1.6
+SharedGens == {1, 2, 3, 4}  \* 3 = MaxStepGenerator(base_step=1, step_ratio=1.64, num_steps=12): a ratio close to the default 1.6
+                            \* 4 = MinStepGenerator(base_step=2^-13, step_ratio=2, num_steps=2): so few steps that the extrapolation
+                            \*     stages see fewer estimates than they have terms (truncated rules must not outlive the call)
 Xs == {1, 2, 3, 4}
 RealStep == {"central", "forward", "backward"}
 
 NoObj == [alive |-> FALSE, m |-> "central", n |-> 1, o |-> 2, g |-> 0]
 
 \* step ratio the object's generator delivers for derivative order n
-RatioTag(g, n) == IF g = 2 THEN <<2, 1>> ELSE IF g = 3 THEN <<41, 25>> ELSE IF n = 1 THEN <<2, 1>> ELSE <<8, 5>>
+RatioTag(g, n) == IF g \in {2, 4} THEN <<2, 1>> ELSE IF g = 3 THEN <<41, 25>> ELSE IF n = 1 THEN <<2, 1>> ELSE <<8, 5>>
 
 UsesRule(ob) == ob.n > 0 /\ ob.m # "multicomplex"
 KeyOf(ob) == <<RatioTag(ob.g, ob.n), Parity(ob.m, ob.n, ob.o), NumTerms(ob.m, ob.n, ob.o)>>
